@@ -12,6 +12,13 @@ CHECKS = {
                 note="Bounded: W<=3 workers, T<=4 trials, listed rung systems; metric values from a fixed table alphabet; "
                      "near ties accepted both ways as the property states.",
                 technique="explicit-state model checking of the implementation (BFS over event histories, digest dedup, reference-model oracle)"),
+    "C04": dict(engine="schedx", category="model_checking", design_ref="§2 C04",
+                text="Explicit-state BFS over every interleaving of suggest/report/complete events of the real "
+                     "HyperbandScheduler (promotion, pasha, cost_promotion, rush_promotion) against a lock-step reference of the "
+                     "promotion rule (top-down scan, quantile / cumulative-cost eligibility, best unpromoted, exact milestone).",
+                note="Bounded: W<=3, T<=4, listed rung systems, brackets<=2; PASHA cap read from the implementation and checked for "
+                     "monotonicity only; RUSH thresholds with >0 candidates not modelled.",
+                technique="explicit-state model checking of the implementation (BFS over event histories, digest dedup, reference-model oracle)"),
 }
 
 NOT_YET = {}
